@@ -55,6 +55,21 @@ CLAIMED = {
         "alone), the definitional value itself is C01/C06's job.",
         "TLA+ model of check-then-kernel with Python index semantics, TLC exhaustive + exhaustive replay",
     ),
+    "C05": (
+        "7/C05",
+        "FormatsDefs.tla, Formats.tla, Trace_Formats.tla",
+        "TLC checks, for every valid sparse output up to the length bound and every index kind, that the "
+        "converters as coded (slice assignment, interval look-up by position, run detection with label "
+        "splits, first/last row per label) produce exactly the set-theoretic labelling of positions and "
+        "that converting back reproduces the output; every enumerated output is replayed through the "
+        "public static converters and through transform() of stub detectors for six index types and two "
+        "column labelings, and predict/transform/dense_to_sparse of the seven real detectors on lattice "
+        "data with planted adjacent / point / end-touching events are validated by TLC (Trace_Formats).",
+        "Exhaustive for n<=6 (quick) / 7 (thorough), subset variant n<=5/6 with p<=2/3 (quick: seeded 25% "
+        "sample of the subset cases); index types: RangeIndex default/offset/step/negative, DatetimeIndex, "
+        "PeriodIndex; overlapping anomalies are outside the property's domain (valid sparse outputs).",
+        "TLA+ state machine input->dense->back checked with TLC + exhaustive replay + trace validation",
+    ),
 }
 
 NOT_YET = {}
